@@ -50,6 +50,7 @@ type rcEnv struct {
 	rc        *refcount.RefCount[int]
 	target    *ccontainer.CContainer[int]
 	targetErr *ccontainer.CContainer[*error]
+	onRelease func(i int) // optional: runs inside the release function of call i
 }
 
 // newRC2 builds a RefCount whose resolver follows script(i) for call i (1-based).
@@ -112,6 +113,9 @@ func (e *rcEnv) releaseFn(i int) {
 	if n > 1 {
 		fail("C08.released-twice", "release function of value %d called %d times", valOf(i), n)
 		return
+	}
+	if e.onRelease != nil {
+		e.onRelease(i)
 	}
 	if e.target.GetValue() == valOf(i) {
 		fail("C08.exposed-after-release", "release function of value %d runs while the target container still holds it", valOf(i))
